@@ -83,6 +83,9 @@ func runC08(tier, replay string) {
 		r.Seen("stacks", stack)
 		if only < 0 {
 			repeatedPartScenario(ctx, r, s, stack)
+			if !strings.HasPrefix(stack, "outbox") {
+				gcGapScenario(ctx, r, s, stack)
+			}
 		}
 		for round := 0; round < rounds; round++ {
 			if only >= 0 && round != only {
